@@ -203,7 +203,10 @@ void Repetition::get_extrema(Array<Vec2>& result) const {
             }
             break;
         case RepetitionType::ExplicitX: {
-            if (coords.count == 0) return;
+            if (coords.count == 0) {
+                result.append(Vec2{0, 0});
+                return;
+            }
             double xmin = 0;
             double xmax = 0;
             double* c = coords.items;
@@ -223,7 +226,10 @@ void Repetition::get_extrema(Array<Vec2>& result) const {
             }
         } break;
         case RepetitionType::ExplicitY: {
-            if (coords.count == 0) return;
+            if (coords.count == 0) {
+                result.append(Vec2{0, 0});
+                return;
+            }
             double ymin = 0;
             double ymax = 0;
             double* c = coords.items;
@@ -243,7 +249,10 @@ void Repetition::get_extrema(Array<Vec2>& result) const {
             }
         } break;
         case RepetitionType::Explicit: {
-            if (offsets.count == 0) return;
+            if (offsets.count == 0) {
+                result.append(Vec2{0, 0});
+                return;
+            }
             Vec2 vxmin = {0, 0};
             Vec2 vxmax = {0, 0};
             Vec2 vymin = {0, 0};
